@@ -216,7 +216,7 @@ def tlc(workdir, module, cfg, env=None, workers=1, timeout=600, xss="1g", xmx="3
     e = dict(os.environ)
     e.update(env or {})
     cmd = ["timeout", str(timeout), "java", "-Xss" + xss, "-Xmx" + xmx, "-XX:+UseParallelGC", "-cp", TLC_CP,
-           "tlc2.TLC", "-metadir", meta, "-workers", str(workers)] + list(extra) + ["-config", cfg, module]
+           "tlc2.TLC", "-noGenerateSpecTE", "-metadir", meta, "-workers", str(workers)] + list(extra) + ["-config", cfg, module]
     t0 = time.time()
     p = subprocess.run(cmd, cwd=SPEC, env=e, stdout=subprocess.PIPE, stderr=subprocess.STDOUT, text=True)
     shutil.rmtree(meta, ignore_errors=True)
